@@ -30,6 +30,7 @@
 #include "unc_ctype.h"
 
 #include <cerrno>
+#include <cstring>
 
 using namespace std;
 
@@ -43,6 +44,13 @@ int backup_copy_file(const char *filename, const vector<UINT8> &data)
 
    md5_str_in[0] = 0;
 
+   // both names must fit: a truncated name is the name of another file
+   if (strlen(filename) + strlen(UNC_BACKUP_MD5_SUFFIX) >= sizeof(newpath))
+   {
+      LOG_FMT(LERR, "%s: the names of the backup files of %s are too long\n",
+              __func__, filename);
+      exit(EX_SOFTWARE);
+   }
    MD5::Calc(data.data(), data.size(), dig);
    snprintf(md5_str, sizeof(md5_str),
             "%02x%02x%02x%02x%02x%02x%02x%02x%02x%02x%02x%02x%02x%02x%02x%02x\n",
@@ -135,6 +143,13 @@ void backup_create_md5_file(const char *filename)
    size_t len;
    char   newpath[1024];
 
+   // the name must fit: a truncated name is the name of another file
+   if (strlen(filename) + strlen(UNC_BACKUP_MD5_SUFFIX) >= sizeof(newpath))
+   {
+      LOG_FMT(LERR, "%s: the name of the md5 file of %s is too long\n",
+              __func__, filename);
+      return;
+   }
    md5.Init();
 
    thefile = fopen(filename, "rb");
